@@ -271,8 +271,13 @@ def families(run, prop, tier, seed, binary, ident_fn, classify_fn, payload_fn=No
     for f, v in FAM_STRIDE_FOR.get(prop, {}).items():
         if f in stride:
             stride[f] = v[qi]
-    with ThreadPoolExecutor(max_workers=len(fams)) as ex:
-        lists = list(ex.map(lambda f: enumerate_family(run, f, stride[f], seed, wk), fams))
+    if tier == "quick":
+        with ThreadPoolExecutor(max_workers=len(fams)) as ex:
+            lists = list(ex.map(lambda f: enumerate_family(run, f, stride[f], seed, wk), fams))
+    else:
+        # exhaustive / dense enumeration (some families evaluate Legal() in their filter): one family at a time
+        # with all workers
+        lists = [enumerate_family(run, f, stride[f], seed, NCPU) for f in fams]
     counts = {f: len(l) for f, l in zip(fams, lists)}
     allpos = [p for l in lists for p in l]
     log(f"[fam] TLC enumerated {len(allpos)} family positions {counts} in {time.time() - t0:.1f}s")
@@ -445,9 +450,10 @@ def mc_impl(run, depth, first=None, last=None, timeout=3000):
         return
     run.states += r["distinct"]
     run.transitions += r["generated"]
-    run.extra["mc_impl"] = {"depth": depth, "distinct_states": r["distinct"], "states_generated": r["generated"],
+    run.extra.setdefault("mc_impl", []).append({"depth": depth, "corpus_slice": [first or 1, last or "end"],
+                            "distinct_states": r["distinct"], "states_generated": r["generated"],
                             "invariants": ["Inv_C05", "Inv_C04", "Inv_C03", "Inv_Legal", "Inv_Valid"],
-                            "wall_s": round(r["wall"], 1)}
+                            "wall_s": round(r["wall"], 1)})
 
 
 SESSION_SIZES = {"C04": (260, 12000), "C05": (220, 10000)}
@@ -483,6 +489,9 @@ def plan_sessions(prop, tier, seed):
              cap=700 if tier == "quick" else 3000)
     # the model by itself (after the traces: 16 TLC workers would starve the validators)
     mc_impl(run, 1 if tier == "quick" else 2)
+    if tier == "thorough":
+        # three plies deep (every nesting of make/unmake) from the special-move part of the corpus
+        mc_impl(run, 3, first=19, last=62, timeout=3400)
     mc_famimpl(run, tier, seed, ["EP", "CASTLE", "PROMO", "PIN"])
     if len(run.nontrivial) < 2:
         run.tool_error("vacuous coverage: fewer than 2 non-trivial cases")
